@@ -268,6 +268,9 @@ func (dec *xmlDecoder) decodeXML(root *xmlNode) error {
 		switch se := t.(type) {
 		case xml.StartElement:
 			log.Debug("start element %v", se.Name.Local)
+			if elem == nil {
+				return fmt.Errorf("invalid XML: element <%v> after an unmatched closing tag", se.Name.Local)
+			}
 			elem.state = "started"
 			// Build new a new current element and link it to its parent
 			elem = &element{
@@ -293,6 +296,10 @@ func (dec *xmlDecoder) decodeXML(root *xmlNode) error {
 				return fmt.Errorf("invalid XML: Encountered chardata [%v] outside of XML node", newBit)
 			}
 
+			if len(newBit) > 0 && elem == nil {
+				return fmt.Errorf("invalid XML: Encountered chardata [%v] after an unmatched closing tag", newBit)
+			}
+
 			if len(newBit) > 0 {
 				elem.n.Data = append(elem.n.Data, newBit)
 				elem.state = "chardata"
@@ -315,6 +322,9 @@ func (dec *xmlDecoder) decodeXML(root *xmlNode) error {
 		case xml.Comment:
 
 			commentStr := string(xml.CharData(se))
+			if elem == nil {
+				return fmt.Errorf("invalid XML: comment after an unmatched closing tag")
+			}
 			if elem.state == "started" {
 				applyFootComment(elem, commentStr)
 
